@@ -38,6 +38,8 @@ SPACES = {
         dict(nv=3, maxl=6, minl=4, classes=("D",), pairs=[(0, 1), (1, 0), (0, 2)]),
     ],
 }
+SPACES["quick"] += engine_g.family_specs(list(range(4, 13)) + [16, 17])
+SPACES["thorough"] += engine_g.family_specs(list(range(4, 13)) + [16, 17, 32, 33])
 FILTERS = ("none", "accept", "reject", "sell")
 
 # neighbour-style wrappers of the link-only filters (same selection, (edge, vertex) signature)
@@ -182,8 +184,12 @@ def _per_state(spec, seq, w, caching):
                                           {"seq": sq, "space": _plain(spec), "case": ["count", a, b, ds, un, fn], "caching": caching}))
     if not viols and w.l:
         base = answers(w)
-        for a in range(nv):
-            for b in range(a, nv):
+        if nv > 4:        # larger graphs (families): a few pairs only
+            upairs = sorted({(0, 1), (0, nv - 1), (nv // 2, nv // 2 + 1), (1, 2), (0, 0)})
+        else:
+            upairs = [(a, b) for a in range(nv) for b in range(a, nv)]
+        for a, b in upairs:
+            for _once in (0,):
                 evals += len(base)
                 nontriv += 1
                 for kind, key in judge_unlink(spec, seq, a, b, base, caching)[:3]:
